@@ -41,7 +41,8 @@ def describe(ver, o):
             if sort:
                 d[key] = [[k, v] for k, v in j.items()]          # key order is promised
             else:
-                d[key] = sorted([k, v] for k, v in j.items())    # plain dict: content only
+                d[key] = sorted([k, v] for k, v in j.items())    # content ...
+                d[key + "_order"] = list(j)                      # ... and the order of the keys as returned ("JSON content and key order")
     d["eq_self"] = bool(o == o)
     twin = type(o)(o.vector)
     d["twin"] = [bool(o == twin), bool(o != twin), bool(o != o), hash(o) == hash(twin)]     # == and != must agree under every interpreter
